@@ -42,7 +42,8 @@ TECH = {
     'C06': 'operator-table agreement, lattice-direction and inclusive-bound '
            'belief consistency, loop-carried dependence of the set-difference '
            'split set, global/memoised-result write effects, who-may-write '
-           'on the cached value of a reference set',
+           'on the cached value of a reference set, all-blocks dependence of '
+           'operator results',
     'C07': 'interprocedural alias/effect analysis (in-place writes to '
            'parameters), cache-reset must-pass-through, sibling agreement, '
            'dominance of the sh.SELF re-binding over every use of a '
@@ -50,7 +51,7 @@ TECH = {
     'C08': 'dominator (must-precede) rules on the two compile functions, '
            'in-place-write effect analysis on everything a compiled function '
            'runs, dominance of the sh.SELF re-binding over every use of a '
-           'sub-dispatcher',
+           'sub-dispatcher, unfiltered inverse-output record',
     'C09': 'writer/reader tag exhaustiveness and quote-escape symmetry, '
            'export reads only state that survives __getstate__, reference '
            'table identity between the two load paths, dead type tests '
@@ -82,17 +83,20 @@ TECH = {
            'emptied by __getstate__ from copy-stable operations, shared '
            'mutable defaults installed by state-restoring hooks, class-level '
            'mutable containers left out of the pickled state, memo '
-           'registration before deep-copying in hand-written __deepcopy__',
+           'registration before deep-copying in hand-written __deepcopy__, '
+           'shallow-copy-in-state check',
     'C18': 'interprocedural exception-escape analysis from Parser.ast, '
            'regex-language containment (token-name languages, path-sensitive, '
            'against every class-level table indexed by the name), handler '
            'coverage of int() on unbounded digit runs, store-to-break '
-           'analysis of the sentinel form of for-else',
+           'analysis of the sentinel form of for-else, end-of-input stack '
+           'walk, ASCII digit classes',
     'C19': 'call-graph sibling agreement, type-guard dominance, slot-memo '
            'dependence, in-place-write effect analysis on lookup cores, '
            'comparisons only on type-filtered candidates',
     'C20': 'constant folding and table agreement against Excel limits, '
-           'untyped-memo kind dependence followed through dispatcher nodes',
+           'untyped-memo kind dependence followed through dispatcher nodes, '
+           'charset check before int(text, base)',
 }
 
 
